@@ -7,6 +7,7 @@ import (
 	"encoding/json"
 	"flag"
 	"fmt"
+	"math"
 	"os"
 	"path/filepath"
 	"sort"
@@ -24,6 +25,27 @@ type KnownFinding struct {
 	What       string `json:"what"`
 	Input      string `json:"input,omitempty"`
 	Defect     string `json:"defect,omitempty"`
+	Witness    string `json:"witness_test,omitempty"` // test file under /verif/witness run on the real code
+	WitnessPkg string `json:"witness_pkg,omitempty"`  // package dir relative to the repository root
+}
+
+// runWitness runs the hand-written witness of a known finding against the real code.
+func runWitness(kf KnownFinding) string {
+	if kf.Witness == "" {
+		return ""
+	}
+	src, err := os.ReadFile(filepath.Join(verifRoot, "witness", kf.Witness))
+	if err != nil {
+		return "witness missing: " + err.Error()
+	}
+	s := strings.Replace(string(src), "func TestOwvcWitness(", "func TestOwvcReplay(", 1)
+	out := execReplayTest(kf.WitnessPkg, s)
+	for _, l := range strings.Split(out, "\n") {
+		if strings.HasPrefix(l, "OWVC-WITNESS") {
+			return l
+		}
+	}
+	return "witness produced no verdict: " + firstLines(out, 4)
 }
 
 type KnownFile struct {
@@ -188,7 +210,32 @@ func cmdCheck(args []string) {
 		}
 	}
 	genS := time.Since(t0).Seconds()
-	res := dischargeAll(obls, outDir, timeout)
+	isKnownObl := func(o *Obligation) bool {
+		for _, kf := range known.Findings {
+			if kf.Property == id && kf.Obligation == shortName(baseName(o.Name)) {
+				return true
+			}
+		}
+		return false
+	}
+	var oblsMain, oblsKnown []*Obligation
+	var oblsCover []*Obligation
+	for _, o := range obls {
+		if isKnownObl(o) {
+			oblsKnown = append(oblsKnown, o)
+		} else if o.ExpectSat {
+			oblsCover = append(oblsCover, o)
+		} else {
+			oblsMain = append(oblsMain, o)
+		}
+	}
+	var resKnown, resCover []*OblResult
+	var wgk sync.WaitGroup
+	wgk.Add(2)
+	go func() { defer wgk.Done(); resKnown = dischargeAll(oblsKnown, outDir, 3) }()
+	go func() { defer wgk.Done(); resCover = dischargeAll(oblsCover, outDir, 5) }()
+	res := dischargeAll(oblsMain, outDir, timeout)
+	wgk.Wait()
 	// one retry with a longer limit for undecided obligations
 	var retry []int
 	for i, r := range res {
@@ -207,6 +254,8 @@ func cmdCheck(args []string) {
 		}
 		wg2.Wait()
 	}
+	res = append(res, resKnown...)
+	res = append(res, resCover...)
 	sortResults(res)
 
 	// classify
@@ -225,6 +274,7 @@ func cmdCheck(args []string) {
 	var solverMs int64
 	knownPrinted := map[string]bool{}
 	var knownLines []string
+	var witnessOut []string
 	for _, r := range res {
 		o := r.O
 		solverMs += r.Ms
@@ -236,7 +286,12 @@ func cmdCheck(args []string) {
 				if r.Status != "discharged" {
 					if !knownPrinted[kf.Obligation] {
 						knownPrinted[kf.Obligation] = true
-						knownLines = append(knownLines, fmt.Sprintf("KNOWN-FINDING: property=%s %s: %s", id, kf.Obligation, kf.What))
+						line := fmt.Sprintf("KNOWN-FINDING: property=%s %s: %s", id, kf.Obligation, kf.What)
+						if w := runWitness(kf); w != "" {
+							line += " [witness on the real code: " + w + "]"
+							witnessOut = append(witnessOut, kf.Obligation+": "+w)
+						}
+						knownLines = append(knownLines, line)
 					}
 					oo.Status = "known-finding"
 				} else {
@@ -316,22 +371,23 @@ func cmdCheck(args []string) {
 	}
 	level := spec.Level
 	cov := map[string]interface{}{
-		"obligations":            nObl,
-		"discharged":             nDis,
-		"checker_cmd":            fmt.Sprintf("/verif/bin/owvc check %s --tier %s", id, *tier),
-		"trusted_base":           trustedBase,
+		"obligations":              nObl,
+		"discharged":               nDis,
+		"checker_cmd":              fmt.Sprintf("/verif/bin/owvc check %s --tier %s", id, *tier),
+		"trusted_base":             trustedBase,
 		"functions_under_contract": funcs,
-		"vacuity_covers":         map[string]int{"run": nCover, "sat": nCoverOK},
-		"known_findings":         nKnown,
-		"solver_ms_total":        solverMs,
-		"generation_s":           genS,
-		"per_obligation":         oblOuts,
-		"samples":                samples,
-		"not_covered":            spec.NotCovered,
-		"assumed_contracts":      trustedContracts,
-		"contract_files":         relFiles(l.cs.Files),
-		"explanation":            spec.Explanation,
-		"rule":                   "one case = one proof obligation generated from /repo's current source by owvc and decided by an SMT solver",
+		"vacuity_covers":           map[string]int{"run": nCover, "sat": nCoverOK},
+		"known_findings":           nKnown,
+		"known_finding_witnesses":  witnessOut,
+		"solver_ms_total":          solverMs,
+		"generation_s":             genS,
+		"per_obligation":           oblOuts,
+		"samples":                  samples,
+		"not_covered":              spec.NotCovered,
+		"assumed_contracts":        trustedContracts,
+		"contract_files":           relFiles(l.cs.Files),
+		"explanation":              spec.Explanation,
+		"rule":                     "one case = one proof obligation generated from /repo's current source by owvc and decided by an SMT solver",
 	}
 	ev := map[string]interface{}{
 		"property_id": id,
@@ -390,18 +446,18 @@ func loadExpected() map[string]int {
 func writeReplayFile(dir, id string, r *OblResult, ro *ReplayOutcome, note string) string {
 	o := r.O
 	m := map[string]interface{}{
-		"property":   id,
-		"obligation": shortName(o.Name),
-		"kind":       o.Kind,
-		"clause":     o.Text,
-		"function":   shortName(o.Func),
-		"position":   o.Pos,
-		"status":     r.Status,
-		"solver":     r.Solver,
+		"property":       id,
+		"obligation":     shortName(o.Name),
+		"kind":           o.Kind,
+		"clause":         o.Text,
+		"function":       shortName(o.Func),
+		"position":       o.Pos,
+		"status":         r.Status,
+		"solver":         r.Solver,
 		"solver_answers": r.AllStat,
 		"solver_output":  truncate(r.Output, 4000),
-		"note":       note,
-		"smt_query":  r.Query,
+		"note":           note,
+		"smt_query":      r.Query,
 	}
 	if r.Model != nil {
 		m["model"] = r.Model
@@ -410,7 +466,7 @@ func writeReplayFile(dir, id string, r *OblResult, ro *ReplayOutcome, note strin
 		m["replay"] = map[string]interface{}{
 			"confirmed_on_real_code": ro.Confirmed,
 			"reason":                 ro.Reason,
-			"inputs":                 ro.Inputs,
+			"inputs":                 jsonSafe(ro.Inputs),
 			"observed":               ro.Observed,
 			"test_source":            ro.TestSrc,
 			"test_output":            truncate(ro.TestOut, 4000),
@@ -460,4 +516,28 @@ func cmdReplay(args []string) {
 	fmt.Println(out)
 	fmt.Printf("recorded verdict: confirmed=%v — %v\n", rp["confirmed_on_real_code"], rp["reason"])
 	os.Exit(1)
+}
+
+// jsonSafe replaces non-finite floats (which encoding/json rejects) by strings.
+func jsonSafe(v interface{}) interface{} {
+	switch x := v.(type) {
+	case float64:
+		if math.IsNaN(x) || math.IsInf(x, 0) {
+			return fmt.Sprint(x)
+		}
+		return x
+	case []float64:
+		out := make([]interface{}, len(x))
+		for i, e := range x {
+			out[i] = jsonSafe(e)
+		}
+		return out
+	case map[string]interface{}:
+		out := map[string]interface{}{}
+		for k, e := range x {
+			out[k] = jsonSafe(e)
+		}
+		return out
+	}
+	return v
 }
